@@ -106,6 +106,8 @@ func checkC08(c *Ctx) {
 		})
 	}
 	c.importRules(configIntactRules, []string{"R3.7"}, "R8.10")        // axis mappings (notes, offsets) are read from an unmodified copy of the parsed configuration
+	c.importRulesWhere(checkC05, []string{"R5.4"}, "R8.12", func(k string) bool { return strings.Contains(k, "NoteEvent") && strings.HasSuffix(k, "/velocity") }) // the Note On of an emulated key has a velocity of at least 1 (with 0 it is a Note Off on the wire)
+	c.importRules(shiftRules, []string{"R6.19"}, "R8.13") // the thresholds meet a position in -1..1: an unsigned one is converted whatever else the mapping says
 	c.importRules(repetitionRules, []string{"R6.17", "R6.4"}, "R8.11") // the first report of an axis is not dropped as a repetition of a position it never reported
 	c.MinCount("R8.1", 5)
 	c.MinCount("R8.4", 1)
@@ -523,10 +525,21 @@ func checkC07(c *Ctx) {
 				bad = "the learning test comes after a send"
 			} else if learn {
 				fas := floatAtoms(p)
-				_, lo := hasFloat(fas, "<", -0.5)
-				_, hi := hasFloat(fas, ">", 0.5)
+				tLo, lo := hasFloat(fas, "<", -0.5)
+				tHi, hi := hasFloat(fas, ">", 0.5)
 				if !lo && !hi {
 					bad = "while learning, a message is sent although the deflection was not shown to be beyond half travel (value < -0.5 or > 0.5)"
+				} else if sends[0].ok && sends[0].B2 != nil {
+					// ... and what was shown to be beyond half travel is the deflection that is transmitted (the shaped, flipped
+					// position the value byte is computed from), not an earlier stage of it: with a deadzone the raw position
+					// passes half travel before the transmitted one does
+					gate := tLo
+					if !lo {
+						gate = tHi
+					}
+					if _, isK := sends[0].B2.IsConst(); !isK && !occursOutsidePhi(sends[0].B2, gate) {
+						bad = "while learning, the half-travel test is made on " + truncate(gate, 90) + ", which is not the deflection the transmitted value is computed from (" + truncate(sends[0].B2.String(), 90) + ")"
+					}
 				}
 			}
 			note(k, bad)
@@ -959,4 +972,24 @@ func emulationReachRules(c *Ctx) {
 	ruleNoDropBeforeCase(c, dv, "R8.9a", []string{"AnalogActionSim"}, false)
 	// controller and pitch-bend axes: every new position reaches the transfer function unless CC learning filters it
 	ruleNoDropBeforeCase(c, dv, "R8.9b", []string{"AnalogCC", "AnalogPitchBend"}, true)
+}
+
+// occursOutsidePhi: some subterm of t prints as key; the inside of an (opaque) phi is not searched - the phi stands for
+// a value of its own.
+func occursOutsidePhi(t *Term, key string) bool {
+	if t == nil {
+		return false
+	}
+	if t.String() == key {
+		return true
+	}
+	if t.Op == "phi" {
+		return false
+	}
+	for _, a := range t.Args {
+		if occursOutsidePhi(a, key) {
+			return true
+		}
+	}
+	return false
 }
